@@ -101,7 +101,7 @@ HsWrite(id, payload, buflen, slackfail) ==
                        slack |-> w.cause = "W_SLACK", obs |-> HsObs(w.okst)]))
      ELSE LET st1 == Rollback(st, w.st) IN
           /\ ep' = [ep EXCEPT ![id].st = st1]
-          /\ aeadLog' = aeadLog     \* encryptions of a failed call are accounted by MC_Faults (partial fields)
+          /\ aeadLog' = aeadLog \cup AeadOps(w.pfields)   \* a failed call has still encrypted what it produced
           /\ Log(Step("hs_write", id, args,
                       [res |-> "err", cause |-> w.cause, kinds |-> KindsOf(w.cause),
                        slack |-> w.cause = "W_SLACK", obs |-> HsObs(st1)]))
@@ -129,6 +129,13 @@ SetPsk(id, loc, key) ==
   /\ Log(Step("set_psk", id, [loc |-> loc, key |-> key],
               [res |-> "ok", obs |-> HsObs(St(id))]))
   /\ UNCHANGED aeadLog
+
+(* feature risky-raw-split: the two Split() keys, computable at any time  *)
+RawSplit(id) ==
+  /\ Mode(id) = "hs"
+  /\ LET sp == Split(St(id).ss) IN
+     Log(Step("raw_split", id, <<>>, [res |-> "ok", k1 |-> sp.c1.k, k2 |-> sp.c2.k]))
+  /\ UNCHANGED <<ep, aeadLog>>
 
 (* conversion consumes the handshake object whatever the outcome          *)
 Convert(id, stateful) ==
